@@ -174,6 +174,21 @@ def run_in_run(spec, out):
         if used > cap and not out.violations:
             out.violate("budget_exceeded", f"in a run of {P.spec['family']} n={P.n} (maxls={cfg['maxls']}, maxfun={cfg['maxfun']}, is_check_factorization="
                         f"{cfg['is_check_factorization']}): a line search given a cap of {cap} made {used} objective evaluations", family=P.spec["family"], mode="in_run")
+        # the step that comes back leads to an objective value strictly below the one at the point the search started from (both
+        # recomputed here from the user's objective; NaN / inf regions excepted)
+        ret = ev.get("ret")
+        x0v, dv = live.get("x0"), live.get("d")
+        if ret is not None and x0v is not None and dv is not None and not out.violations:
+            xs = np.array(x0v, dtype=float, copy=True)
+            pt = np.clip(xs + float(ret) * np.asarray(dv, dtype=float), P.lb, P.ub)
+            olde = np.seterr(all="ignore")
+            f_s, f_e = float(P.f(xs.copy())), float(P.f(pt.copy()))
+            np.seterr(**olde)
+            if np.isfinite(f_s) and np.isfinite(f_e):
+                out.count("steps_returned_inside_runs_checked_for_decrease")
+                if not (f_e < f_s):
+                    out.violate("step_not_downhill", f"in a run of {P.spec['family']} n={P.n}: a line search started at a point with f={f_s!r} returned the step {float(ret)!r} "
+                                f"leading to f={f_e!r}", family=P.spec["family"], mode="in_run")
         for k, p_, v in tr.evals[-used:] if used > 0 else []:
             if not probes.in_box(np.real(p_), P.lb, P.ub) and not out.violations:
                 out.violate("trial_outside_box", f"in a run of {P.spec['family']}: a point evaluated during a line search lies outside the box: {np.real(p_).tolist()}",
@@ -200,10 +215,15 @@ def run_in_run(spec, out):
 
     with probes.Intercept(M, ["line_search"], copy_args=False, on_call=pre) as ic:
         ic.on_event = on_event
-        first = go(dict(cfg, maxiter=spec["restart_after"]) if spec.get("restart_after") else cfg)
+        kept = []
+        first = go(dict(cfg, maxiter=spec["restart_after"]) if spec.get("restart_after") else cfg, hooks={"on_cb": (lambda i, xk, st: kept.append(st) and False)})
         if spec.get("restart_after") and first.result is not None and first.result.nit == spec["restart_after"]:
             out.count("runs_continued_from_a_checkpoint")
-            go(dict(cfg, plain_inputs=True), checkpoint=first.result, x0=np.array(first.result.x, dtype=float, copy=True))
+            ck = first.result
+            if len(kept) >= 2 and int(P.spec["seed"]) % 2 == 0:
+                ck = kept[0]  # ... from a state the callback kept several iterations before the end, as after a crash
+                out.count("runs_continued_from_an_early_kept_state")
+            go(dict(cfg, plain_inputs=True), checkpoint=ck, x0=np.array(ck.x, dtype=float, copy=True))
     out.count("runs_observed")
     if cfg.get("is_check_factorization"):
         out.count("runs_with_the_factorisation_checking_switch")
